@@ -201,6 +201,50 @@ def fmt_family(res, wd, quick, rng):
     return len(events), len(events) - st["dropped"] - len(rejects)
 
 
+TRACE_VS = os.path.join(ROOT, "spec/trace/Trace_C01vs.tla")
+MC_VS = os.path.join(ROOT, "spec/mc/MC_VariablesStack.tla")
+
+
+def vstack_validate(res, vs_execs, cases, wd, quick):
+    """MC_VariablesStack: the transcribed variable stack, driven by every program TLC can build within the bounds, implements the
+    scoping rules of XSLT 11 (and does not with the repair 46a849f switched off: the counterexample must come back).
+    Trace_C01vs: every operation the real stack performed in the recorded transformations (hook H2) is the model's operation."""
+    cfg = os.path.join(wd, "vs.cfg")
+    consts = "CONSTANTS NT = 2\n MaxCtl = %d\n MaxSeq = %d\n" % ((4, 3) if quick else (5, 4))
+    open(cfg, "w").write("SPECIFICATION Spec\n" + consts + " Repaired = TRUE\nINVARIANT ScopingHolds\nINVARIANT Balanced\nPROPERTY RefIsPure\n")
+    r = vlib.tlc_mc(MC_VS, cfg, name="c01vs", timeout=3000, extra=["-noGenerateSpecTE"])
+    res.add_mc(r, "MC_VariablesStack (VariablesStackImpl under every program of calls / apply-templates / with-params / variables / nested elements within the bounds implements XSLT 11 scoping)")
+    cfg2 = os.path.join(wd, "vs-unrepaired.cfg")
+    open(cfg2, "w").write("SPECIFICATION Spec\nCONSTANTS NT = 2\n MaxCtl = 4\n MaxSeq = 2\n Repaired = FALSE\nINVARIANT ScopingHolds\n")
+    r2 = vlib.tlc(MC_VS, cfg2, workers=4, name="c01vsw", timeout=1500, extra=["-noGenerateSpecTE"])
+    if "Invariant ScopingHolds is violated" not in r2["out"]:
+        raise vlib.Infra("MC_VariablesStack with Repaired = FALSE no longer finds the scoping counterexample (the model lost its teeth):\n" + r2["out"][-1500:])
+    res.notes["variables_stack_model_finds_the_unrepaired_defect"] = True
+    events, owner = [], []
+    for cid in sorted(vs_execs):
+        events.append({"e": "Reset", "id": cid}); owner.append(cid)
+        for k, ev in enumerate(vs_execs[cid]):
+            events.append(dict(ev, k=k + 1)); owner.append(cid)
+    if not events:
+        return 0, 0
+    rejects, st = vlib.tlc_validate_sharded(TRACE_VS, events, tag="c01vs", timeout=3000)
+    bad = set()
+    for rj in rejects:
+        cid = owner[rj["line"]]
+        if cid in bad:
+            continue
+        bad.add(cid)
+        cdir = cases[cid]["dir"]
+        k = rj["line"]
+        while events[k]["e"] != "Reset":
+            k -= 1
+        res.violation("variable stack: operation %d of the transformation is not the model's (VariablesStackImpl): %s" % (rj["line"] - k, rj["msg"][:400]),
+                      [dict(ev, family="vstack") for ev in events[k:rj["line"] + 1]] + [{"e": "Sample", "xsl": all_xsl(cdir), "xml": open(os.path.join(cdir, "in.xml")).read()}])
+    res.notes["variable_stack_operations_validated"] = len(events) - len(vs_execs)
+    res.notes["variable_stack_executions"] = len(vs_execs)
+    return len(vs_execs), len(vs_execs) - len(bad)
+
+
 TRACE_NS = os.path.join(ROOT, "spec/trace/Trace_C01ns.tla")
 
 
@@ -298,7 +342,8 @@ def run(res, tier, seed):
         aux = [rng.randrange(len(docs)) for _ in range(ss.get("ndocs", 0))]
         for j, a in enumerate(aux):
             open(os.path.join(cdir, "d%d.xml" % (j + 2)), "w").write(c02.doc_xml(docs[a]))
-        cases.append({"id": k, "dir": cdir, "trace": "none", "select": False})
+        # hook H2: the scoping family and every third other case also record every operation of the engine's variable stack
+        cases.append({"id": k, "dir": cdir, "trace": "none", "select": False, "vstack": bool(fam == "scoping" or (not fam and (k % 5 == 4 or k % 3 == 0)))})
         metas.append((ss, d, aux))
     exe = vlib.build_harness("xslt")
     nsh = vlib.NCPU
@@ -309,13 +354,20 @@ def run(res, tier, seed):
             cp = os.path.join(wd, "cases-%d.ndjson" % s); vlib.write_ndjson(cp, ch)
             rp = os.path.join(wd, "trace-%d.ndjson" % s)
             procs.append((ch, rp, subprocess.Popen([exe, cp], stdout=open(rp, "w"), stderr=subprocess.PIPE)))
-    events, kinds = [], set()
+    events, kinds, vs_execs = [], set(), {}
     for ch, rp, p in procs:
         try:
             _, err = p.communicate(timeout=600)
         except subprocess.TimeoutExpired:
             p.kill(); _, err = p.communicate(); err = b"TIMEOUT " + (err or b"")
-        dones = {ev["id"]: ev for ev in vlib.read_ndjson(rp) if ev["e"] == "Done"}
+        raw = vlib.read_ndjson(rp)
+        dones = {ev["id"]: ev for ev in raw if ev["e"] == "Done"}
+        cur = None
+        for ev in raw:                      # the variable-stack operations of each transformation, as one execution
+            if ev["e"] == "Reset":
+                cur = ev["id"]
+            elif ev["e"] == "VS":
+                vs_execs.setdefault(cur, []).append(ev)
         died = False
         for c in ch:
             ss, d, aux = metas[c["id"]]
@@ -342,10 +394,11 @@ def run(res, tier, seed):
         else:
             res.violation("status %s %s | %s" % (ev["status"], ev["msg"][:100], rj["msg"][:300]),
                           [dict(ev, xsl=all_xsl(cdir), xml=open(os.path.join(cdir, "in.xml")).read(), flatdoc=flats[ev["doc"] - 1], flataux=[flats[a - 1] for a in ev["aux"]])])
+    nvs, nvs_ok = vstack_validate(res, vs_execs, cases, wd, quick)
     navt, navt_ok = avt_family(res, wd, quick)
     nfmt, nfmt_ok = fmt_family(res, wd, quick, rng)
     nns, nns_ok = nsnodes_family(res, wd, quick, rng)
-    navt, navt_ok = navt + nfmt + nns, navt_ok + nfmt_ok + nns_ok
+    navt, navt_ok = navt + nfmt + nns + nvs, navt_ok + nfmt_ok + nns_ok + nvs_ok
     res.notes["dropped_unjudged"] = st["dropped"]
     rejected = {rj["line"] for rj in rejects}
     res.cov["traces_validated_against_impl"] = len(events) - len(rejects) - st["dropped"] + navt_ok
@@ -379,6 +432,13 @@ def classify(ev):
 
 def replay(path):
     events = vlib.read_ndjson(path)
+    fam = events[0].get("family") if events else None
+    if fam in ("vstack", "nsnodes"):
+        evs = [{k: v for k, v in ev.items() if k not in ("family", "xsl", "xml")} for ev in events if ev.get("e") != "Sample"]
+        rejects, _ = vlib.tlc_validate_sharded(TRACE_VS if fam == "vstack" else TRACE_NS, evs, shards=1, tag="c01replay2", stateless=(fam == "nsnodes"))
+        for r in rejects:
+            print("REJECTED: %s" % r["msg"][:2000])
+        return 1 if rejects else 0
     wd = vlib.workdir("c01replay")
     flat = events[0].pop("flatdoc")
     flataux = events[0].pop("flataux", [])
